@@ -643,6 +643,8 @@ def method(e: Engine, st: State, tag, args: List[SV], kw, n: ast.Call) -> SV:
                 e.attr_safety(st, recv, e.repo.funcs[q].cls, attr)
                 # polymorphic dispatch: if subclasses override, case-split is needed
                 overrides = [c for c in e.repo.subclasses(cls) if c != cls and attr in e.repo.classes[c].methods]
+                if e.repo.funcs[q].kind == "staticmethod":
+                    return finish_call(e, st, q, args, kw, n, list(n.args))
                 if overrides:
                     return dispatch(e, st, recv, attr, cls, overrides, args, kw, n)
                 return finish_call(e, st, q, [recv] + args, kw, n, [recv_node] + list(n.args))
@@ -660,9 +662,27 @@ def method(e: Engine, st: State, tag, args: List[SV], kw, n: ast.Call) -> SV:
 
 
 def dispatch(e: Engine, st: State, recv: SV, attr: str, cls: str, overrides, args, kw, n) -> SV:
-    """Dynamic dispatch over the AST-derived hierarchy: requires one contract per implementation;
-    the effects are merged under the class conditions (all implementations must share the frame shape)."""
-    raise Unsupported(f"polymorphic call .{attr} on {cls} (overridden in {overrides})")
+    """Dynamic dispatch over the AST-derived hierarchy: every implementation needs a contract; preconditions are
+    asserted and postconditions assumed under the condition that the receiver's class resolves to that implementation;
+    the frames of all implementations are havocked (over-approximation)."""
+    impls = {}
+    for sub in e.repo.subclasses(cls):
+        q = e.repo.find_method(sub, attr)
+        impls.setdefault(q, []).append(sub)
+    result = None
+    recv_node = n.func.value if isinstance(n.func, ast.Attribute) else None
+    for q, subs in impls.items():
+        if q not in e.reg.contracts:
+            raise Unsupported(f"polymorphic call .{attr}: implementation {q} has no contract")
+        cond = Or(*[class_of(recv.v) == e.repo.classes[s_].cid for s_ in subs])
+        e.guards.append(cond)
+        try:
+            narrowed = SV(OBJ(e.repo.funcs[q].cls), recv.v, recv.none)
+            r = finish_call(e, st, q, [narrowed] + args, kw, n, [recv_node] + list(n.args))
+        finally:
+            e.guards.pop()
+        result = r if result is None else ite_sv(cond, r, result)
+    return result
 
 
 def str_method(e: Engine, st: State, s, attr: str, args: List[SV], kw, recv: SV) -> SV:
